@@ -346,6 +346,20 @@ pub fn run(cfg: &Cfg, rep: &mut Report) {
                 let rs: Vec<&str> = hay.rsplit(&re).collect();
                 let total: usize = rs.iter().map(|s| s.len()).sum::<usize>() + rm.iter().map(|s| s.len()).sum::<usize>();
                 chk("rsplit pieces + rmatches cover the haystack", format!("{}", total), format!("{}", hay.len()));
+                // Whatever a reverse search prefers among overlapping candidates, it finds a match
+                // iff there is one; its leftmost match is not right of the first forward match; and a match reaching the end of the haystack (or, for an
+                // empty one, sitting at its start) is not lost at the edges.
+                chk("rfind finds a match iff find_iter has one", format!("{}", hay.rfind(&re).is_some()), format!("{}", !expected.is_empty()));
+                if let Some(first) = expected.first() {
+                    let lo = rmi.iter().map(|x| x.0).min();
+                    chk("the leftmost reverse match is not right of the first find_iter match's end", format!("{}", lo.map(|l| l <= first.1).unwrap_or(false)), "true".to_string());
+                }
+                if expected.last().map(|m| m.1 == hay.len()).unwrap_or(false) {
+                    chk("ends_with when a match ends at the end", format!("{}", hay.ends_with(&re)), "true".to_string());
+                }
+                if expected.first().map(|m| m.0 == 0).unwrap_or(false) {
+                    chk("starts_with when a match starts at 0", format!("{}", hay.starts_with(&re)), "true".to_string());
+                }
                 problems
             });
             match r {
